@@ -338,6 +338,9 @@ theorem source_hFloat64ConfigRequired : GeneratedSrc.hFloat64ConfigRequired = Ex
 theorem source_kcSetup : GeneratedSrc.kcSetup = ExpectedSrc.kcSetup := by rfl
 theorem source_kpSetup : GeneratedSrc.kpSetup = ExpectedSrc.kpSetup := by rfl
 
+/-! ### parameters pass through the executor untouched -/
+theorem source_withConfig : GeneratedSrc.withConfig = ExpectedSrc.withConfig := by rfl
+
 /-! ### influence closure: the pinned functions, and every function of the repository that writes a struct field or package
 variable they read, are unchanged (digests regenerated from /repo on every run; a difference names the functions) -/
 theorem closure_unchanged : GeneratedClo.C20 = ExpectedClo.C20 := by rfl
